@@ -211,10 +211,8 @@ def eval_value(spec, xyz):
     return [a * p[0] + b * p[1] + c for p in xyz]
 
 
-def build_phys(case, solver=None, lag_as=None):
-    """lag_as: index of a Dirichlet condition that is imposed through single-dof Lagrange conditions."""
+def new_simu(case, solver=None):
     from EasyFEA import Models, Simulations
-    from EasyFEA.FEM import LagrangeCondition
     kind = case["kind"]
     mesh, coords = grid_mesh(case["nx"], case["ny"], case["elem"], case.get("orphans", 0))
     if kind == "elastic":
@@ -222,13 +220,16 @@ def build_phys(case, solver=None, lag_as=None):
         simu = Simulations.Elastic(mesh, mat, verbosity=False)
     elif kind == "thermal":
         simu = Simulations.Thermal(mesh, Models.Thermal(k=1.0, c=1.0, thickness=1.0), verbosity=False)
-    elif kind == "hyper":
-        mat = Models.HyperElastic.SaintVenantKirchhoff(2, 1.0, 1.0) if False else None
-        raise NotImplementedError
+    else:
+        raise NotImplementedError(kind)
     if solver:
         simu.solver = solver
-    pt = simu.problemType
-    for i, bc in enumerate(case["dirichlet"]):
+    return simu, simu.problemType, coords
+
+
+def apply_bcs(simu, pt, coords, dirichlet, neumann, lag_as=None):
+    from EasyFEA.FEM import LagrangeCondition
+    for i, bc in enumerate(dirichlet):
         nodes = np.array(bc["nodes"], dtype=int)
         if lag_as is not None and i == lag_as:
             unk = simu.Get_unknowns(pt)
@@ -239,8 +240,14 @@ def build_phys(case, solver=None, lag_as=None):
                     simu._Bc_Add_Lagrange(LagrangeCondition(pt, np.array([nd]), np.array([d]), [u_], np.array([float(v)]), np.array([1.0])))
         else:
             simu.add_dirichlet(nodes, [make_value(s) for s in bc["values"]], bc["unknowns"])
-    for bc in case["neumann"]:
+    for bc in neumann:
         simu.add_neumann(np.array(bc["nodes"], dtype=int), [make_value(s) for s in bc["values"]], bc["unknowns"])
+
+
+def build_phys(case, solver=None, lag_as=None):
+    """lag_as: index of a Dirichlet condition that is imposed through single-dof Lagrange conditions."""
+    simu, pt, coords = new_simu(case, solver)
+    apply_bcs(simu, pt, coords, case["dirichlet"], case["neumann"], lag_as)
     return simu, pt, coords
 
 
@@ -322,6 +329,54 @@ def run_phys(case):
     return res
 
 
+def solution_checks(add, tag, simu, pt, coords, u, dirichlet):
+    """constrained values exact (sum of entered values) and free residual of one solve."""
+    sums = expected_sums({"dirichlet": dirichlet}, coords, simu, pt)
+    bad = [(d, float(u[d]), s) for d, s in sorted(sums.items()) if u[d] != s]
+    add(tag + ":constrained-values-exact", not bad, {"first": bad[:3], "n": len(sums)})
+    K, _, _, _ = simu.Get_K_C_M_F(pt)
+    b = np.asarray(simu._Solver_Apply_Neumann(pt).todense()).ravel()
+    free = np.array([i for i in range(u.size) if i not in sums], dtype=int)
+    orph = simu.Bc_dofs_nodes(simu.mesh.orphanNodes, simu.Get_unknowns(pt), pt) if len(simu.mesh.orphanNodes) else np.array([], dtype=int)
+    free = np.setdiff1d(free, orph)
+    r = K @ u - b
+    scale = float(np.abs(K).dot(np.abs(u)).max() + np.abs(b).max() + 1e-300)
+    rmax = float(np.abs(r[free]).max()) if free.size else 0.0
+    add(tag + ":free-residual<=1e-10", np.isfinite(rmax) and rmax <= 1e-10 * scale, {"res": rmax, "scale": scale})
+
+
+def run_multi(case):
+    """several solves on ONE simulation object with boundary-condition changes in between; after each
+    solve the result must be what a freshly built simulation with the same conditions returns."""
+    res = {"id": case["id"], "error": None, "checks": []}
+
+    def add(name, ok, detail):
+        res["checks"].append({"name": name, "ok": bool(ok), "detail": detail})
+    with warnings.catch_warnings():
+        warnings.simplefilter("ignore")
+        with contextlib.redirect_stdout(io.StringIO()):
+            simu, pt, coords = new_simu(case)
+            cumD, cumN = [], []
+            for si, st in enumerate(case["stages"]):
+                if st["bc_init"]:
+                    simu.Bc_Init()
+                    cumD, cumN = [], []
+                apply_bcs(simu, pt, coords, st["dirichlet"], st["neumann"])
+                cumD, cumN = cumD + st["dirichlet"], cumN + st["neumann"]
+                u = np.asarray(simu.Solve(), dtype=float).copy()
+                tag = "multi:stage%d:%s" % (si, st["kind"])
+                solution_checks(add, tag, simu, pt, coords, u, cumD)
+                fresh, ptf, _ = new_simu(case)
+                apply_bcs(fresh, ptf, coords, cumD, cumN)
+                uf = np.asarray(fresh.Solve(), dtype=float)
+                dmax = float(np.abs(u - uf).max()) if np.all(np.isfinite(u)) else float("inf")
+                add(tag + ":equals-fresh-simulation", dmax <= 1e-12 * max(1.0, float(np.abs(uf).max())), {"maxdiff": dmax})
+                kn, un = simu.Bc_dofs_known_unknown(pt)
+                knf, unf = fresh.Bc_dofs_known_unknown(ptf)
+                add(tag + ":known-unknown-split-equals-fresh", np.array_equal(kn, knf) and np.array_equal(un, unf), {"known": [int(v) for v in kn][:12], "fresh": [int(v) for v in knf][:12]})
+    return res
+
+
 def any_duplicate(case, coords, simu, pt, skip):
     seen = set()
     unk = simu.Get_unknowns(pt)
@@ -385,6 +440,63 @@ def run_special(case):
                     add("newton:duplicate-dirichlet-holds-sum", got == exp, {"observed": got, "expected": exp})
                 except AssertionError as ex:
                     add("newton:duplicate-dirichlet-holds-sum", False, {"observed": "AssertionError: " + str(ex)[:120], "expected": exp})
+            elif case["scenario"] in ("beam-connection-backends", "elastic-mpc-backends"):
+                # problems WITH Lagrange conditions solved with every backend configured on the simulation:
+                # whatever backend is selected, the answer must be the direct one and satisfy the constraints
+                def build(solver):
+                    if case["scenario"] == "beam-connection-backends":
+                        from EasyFEA import Mesher
+                        from EasyFEA.Geoms import Domain, Point, Line
+                        L, bb, hh, nel = 8.0, 0.5, 0.5, case["nel"]
+                        mesher = Mesher()
+                        section = mesher.Mesh_2D(Domain(Point(-bb / 2, -hh / 2), Point(bb / 2, hh / 2)))
+                        line1 = Line(Point(0, 0), Point(L, 0), L / nel)
+                        line2 = Line(Point(L, 0), Point(L, L), L / nel)
+                        beam1 = Models.Beam.Isotropic(2, line1, section, 1024.0, 0.25)
+                        beam2 = Models.Beam.Isotropic(2, line2, section, 1024.0, 0.25)
+                        mesh = mesher.Mesh_Beams([beam1, beam2], elemType=case.get("elem", "SEG2"))
+                        simu = Simulations.Beam(mesh, Models.Beam.BeamStructure([beam1, beam2]), verbosity=False)
+                        simu.solver = solver
+                        simu.add_dirichlet(simu.mesh.Nodes_Point(Point(0, 0)), [0, 0, 0], ["x", "y", "rz"])
+                        simu.add_connection_fixed(simu.mesh.Nodes_Point(Point(L, 0)))
+                        simu.add_neumann(simu.mesh.Nodes_Point(Point(L, L)), [case["F"]], ["x"])
+                    else:
+                        mesh, coords = grid_mesh(case["nx"], case["ny"], "QUAD4")
+                        simu = Simulations.Elastic(mesh, Models.Elastic.Isotropic(2, E=1.0, v=0.25, planeStress=True, thickness=1.0), verbosity=False)
+                        simu.solver = solver
+                        left = np.where(coords[:, 0] == 0)[0]
+                        right = np.where(coords[:, 0] == case["nx"])[0]
+                        simu.add_dirichlet(left, [0, 0], ["x", "y"])
+                        simu.add_dirichlet(right, [case["v1"]], ["x"])
+                        a, b = int(right[0]), int(right[-1])
+                        simu._Bc_Add_Lagrange(LagrangeCondition(simu.problemType, np.array([a, b]), np.array([2 * a + 1, 2 * b + 1]), ["y"], np.array([case["v2"]]), np.array([1.0, -1.0])))
+                        simu.add_neumann(right, [0.125], ["y"])
+                    return simu
+
+                def constraint_residual(simu, u):
+                    worst = 0.0
+                    for bc in simu.Bc_Lagrange:
+                        worst = max(worst, abs(float(np.dot(bc.lagrangeCoefs, u[bc.dofs]) - bc.dofsValues[0])))
+                    dd, vv = simu.Bc_dofs_Dirichlet(simu.problemType), simu.Bc_values_Dirichlet(simu.problemType)
+                    if len(dd):
+                        worst = max(worst, float(np.abs(u[dd] - vv).max()))
+                    return worst
+                s0 = build("scipy")
+                u0 = np.asarray(s0.Solve(), dtype=float)
+                umax = max(1.0, float(np.abs(u0).max()))
+                add("lagrange-backends:scipy:constraints<=1e-9", np.all(np.isfinite(u0)) and constraint_residual(s0, u0) <= 1e-9 * umax, {"worst": constraint_residual(s0, u0), "n_lagrange": len(s0.Bc_Lagrange), "n": int(u0.size)})
+                for solver in case["backends"]:
+                    try:
+                        s1 = build(solver)
+                        if solver == "lsq_linear":
+                            s1.Get_lb_ub = lambda problemType: (np.full(1, -1e6), np.full(1, 1e6))
+                        u1 = np.asarray(s1.Solve(), dtype=float)
+                        dmax = float(np.abs(u1 - u0).max()) if np.all(np.isfinite(u1)) else float("inf")
+                        cres = constraint_residual(s1, u1) if np.all(np.isfinite(u1)) else float("inf")
+                        add("lagrange-backends:%s:agrees-with-direct" % solver, dmax <= 1e-6 * umax, {"maxdiff": dmax, "tol": 1e-6 * umax})
+                        add("lagrange-backends:%s:constraints<=1e-9" % solver, cres <= 1e-9 * umax, {"worst": cres})
+                    except Exception as ex:
+                        add("lagrange-backends:%s:runs" % solver, False, {"raised": "%s: %s" % (type(ex).__name__, str(ex)[:200])})
             elif case["scenario"] == "beam-connection":
                 from EasyFEA import Mesher
                 from EasyFEA.Geoms import Domain, Point, Line
@@ -434,7 +546,7 @@ def main():
     import io as _io
     real_stdout = sys.stdout
     sys.stdout = _io.StringIO()
-    fn = {"plumb": run_plumb, "phys": run_phys, "special": run_special}[req["mode"]]
+    fn = {"plumb": run_plumb, "phys": run_phys, "special": run_special, "multi": run_multi}[req["mode"]]
     out = []
     for case in req["cases"]:
         try:
